@@ -27,7 +27,7 @@ EXHAUSTIVE_NOTE = None
 
 
 def examples(tier):
-    return 420 if tier == "quick" else 6000
+    return 1120 if tier == "quick" else 14000
 
 
 @st.composite
